@@ -16,7 +16,7 @@ Open Scope string_scope.
 (* results                                                                                      *)
 (* ------------------------------------------------------------------------------------------ *)
 Inductive diag :=
-| DNestedFile | DExpectList | DDouble (s : string) | DUnexpected | DUnexpectedNested | DUnknownIdent (s : string).
+| DNestedFile | DExpectList | DEmptyList | DExpectWord | DDouble (s : string) | DUnexpected | DUnexpectedNested | DUnknownIdent (s : string).
 
 Inductive res (A : Type) := Ok (a : A) | Diag (d : diag).
 Arguments Ok {A} a.
@@ -47,9 +47,17 @@ Inductive meta :=
 Definition mname (m : meta) : string := match m with MPath n | MList n _ | MNV n => n end.
 Definition is_name (s : string) (m : meta) : bool := String.eqb (mname m) s.
 
-(* attribute::get_list with Some(help): Path -> None, List -> Some, NameValue -> abort *)
+(* edit.rs get_list (attribute::get_list with Some(help), then the emptiness test):
+   Path -> None, non-empty List -> Some, `name()` -> abort, NameValue -> abort *)
 Definition get_list (m : meta) : res (option (list meta)) :=
-  match m with MPath _ => Ok None | MList _ l => Ok (Some l) | MNV _ => Diag DExpectList end.
+  match m with
+  | MPath _ => Ok None
+  | MList _ [] => Diag DEmptyList
+  | MList _ l => Ok (Some l)
+  | MNV _ => Diag DExpectList
+  end.
+(* attribute::expect_word: a bare word, neither `w(..)` nor `w = v` *)
+Definition is_word (m : meta) : bool := match m with MPath _ => true | _ => false end.
 
 (* ------------------------------------------------------------------------------------------ *)
 (* 2. parser model                                                                              *)
@@ -82,6 +90,7 @@ Definition abort_if_is_file (m : meta) : res unit := if is_name "file" m then Di
 
 Definition add_if_unique (vec : nlist) (m : meta) (file : bool) : res nlist :=
   let id := mname m in
+  if negb (is_word m) then Diag DExpectWord else
   match vec with
   | Some v => if existsb (fun p => String.eqb id (fst p)) v then Diag (DDouble id) else Ok (Some (v ++ [(id, file)])%list)
   | None => Ok (Some [(id, file)])
@@ -108,6 +117,7 @@ Definition parse_idents (os : nlist * bool) (m : meta) (file : bool) : res (nlis
 Definition nested_t (name : string) (t : tuples) (m : meta) (file : bool) : res tuples :=
   let '(d, i, r) := t in
   if is_name "def" m then
+    if negb (is_word m) then Diag DExpectWord else
     (if fst d then Diag (DDouble (name ++ "::def")) else Ok ((true, if file then true else snd d), i, r))
   else if is_name "imp" m then
     (match fst i with
